@@ -591,6 +591,7 @@ def run(ctx):
     rule_run(ctx, repo)
     rule_sweep(ctx, repo)
     rule_fresh(ctx, repo)
-    from rules import c08_sweep, c08_derived
+    from rules import c08_sweep, c08_derived, c08_eval
     c08_sweep.run_rule(ctx, repo)
     c08_derived.run_rule(ctx, repo)
+    c08_eval.run_rule(ctx, repo)
